@@ -15,4 +15,14 @@ CHECKS = {
     },
 }
 
+CHECKS["C06"] = {
+    "registered": True,
+    "engine": "pmc-rt",
+    "technique": "stateless preemption-bounded exhaustive schedule enumeration of pika tasks on a live 2-worker runtime (controlled scheduler over hooked atomics + interposed pthreads, virtual clock)",
+    "level_text": "Every schedule within the deviation bound (preemptions at the atomics of the mutex object and the task state words, early timeouts) of every small lock/try_lock/timed/recursive/misuse program is executed on the real runtime; occupancy, critical-section visibility, hand-off (no stuck waiter), try-result truthfulness and error reporting are checked in each execution.",
+    "level_note": "Sequentially consistent interleavings only; 2 workers, 2-3 tasks, 1-2 critical sections each; choice points at atomics on the watched mutex and task thread_data (unwatched runtime internals run in canonical order); bounds per spec in the evidence.",
+    "rule": "pmc-rt: task programs over {lock, try_lock, lock+yield, relock, try_lock_for/until, re-entrant lock} (data choices) x all schedules within the deviation bound",
+    "parts": [{"bin": "C06_mutex"}],
+}
+
 PENDING = {}
